@@ -1,55 +1,17 @@
-(* PoolProgress.v -- C06: progress of the pool model while the client is inside
-   mps_thread_pool_wait.
-   Part 1 (this section): a ranking function.  Every step other than a spurious wake-up, by any
-   thread, strictly decreases [rank] while the client is in wait; a spurious wake-up raises it by at
-   most [spurious_cost].  Hence an execution in which the client stays in wait contains at most
-   rank + spurious_cost * (number of spurious wake-ups) other steps.
-   Part 2: deadlock freedom of the disciplined model (some non-spurious step is enabled). *)
+(* PoolProgress.v -- C06: progress of the pool model (deadlock freedom).
+   General invariants (every trace of [step], repaired or not, with or without discipline):
+   lock ownership, the waiter sleeps only for a reason, wait sets, pool list, the worker being freed.
+   Consequences:
+     - pool_stuck_only_in_wait: a reachable state without an enabled non-spurious step (and not
+       after free) has the client inside the cond_wait of mps_thread_pool_wait: free and
+       set_concurrency_limit never block themselves, whatever the pool is doing;
+     - pool_no_stuck_state: with the discipline (limit lowered / pool freed only when quiescent) nothing is stuck;
+     - pool_repaired_no_stuck_state: with the repair nothing is stuck, without any precondition.
+   The ranking function is in PoolRank.v. *)
 Require Import List ZArith Bool Arith Lia Permutation.
 Require Import MPSV.Conc.PoolModel MPSV.Conc.PoolLemmas MPSV.Conc.PoolProps.
 Import ListNotations.
 Open Scope nat_scope.
-
-Definition waiting (p : cpc) : bool :=
-  match p with CWaitLock _ | CWaitCond _ | CWaitBlocked _ | CWaitUnlock _ => true | _ => false end.
-
-(* distance of a worker from its resting point (asleep in cond_wait, or exited); sg = it has been signalled *)
-Definition wrank (sg : bool) (x : worker) : nat :=
-  (if w_cont x then 1 else 0) +
-  match w_pc x with
-  | WExited => 0 | WExit => 1 | WExitUnlockQC => 3
-  | WCondWait => 1 | WIdleUnlockWC => 5 | WIdleSignal => 10
-  | WLockQC => 11 | WLockWC => 12 | WTop => 13 | WStart => 14
-  | WRunEnd _ => 14 | WRunYield _ => 15 | WRunStart _ => 16 | WRunUnlockWC _ => 18 | WRunUnlockQC _ => 20
-  | WWokenUnlockQC => 15
-  | WWaiting => if sg then 16 else 0
-  end.
-Fixpoint wsum (q : list tid) (k : nat) (l : list worker) : nat :=
-  match l with [] => 0 | x :: r => wrank (negb (mem (S k) q)) x + wsum q (S k) r end.
-Definition crank (s : state) : nat :=
-  (if cont0 s then 1 else 0) +
-  match pc0 s with
-  | CWaitLock _ => 5 | CWaitCond _ => 2 | CWaitUnlock _ => 2
-  | CWaitBlocked _ => if mem 0 (wc_wait s) then 0 else 4
-  | _ => 0
-  end.
-Definition rank (s : state) : nat := 10 * length (queue s) + wsum (qc_wait s) 0 (workers s) + crank s.
-Definition spurious_cost : nat := 16.
-
-Lemma wsum_change q q' : forall l k i x y,
-  nth_error l i = Some x ->
-  (forall j, j <> k + i -> mem (S j) q' = mem (S j) q) ->
-  wsum q' k (upd i y l) + wrank (negb (mem (S (k + i)) q)) x = wsum q k l + wrank (negb (mem (S (k + i)) q')) y.
-Proof.
-  induction l as [|a l IH]; intros k [|i] x y E M; simpl in *; try discriminate.
-  - inversion E; subst. rewrite Nat.add_0_r in *.
-    assert (W : forall r n, k < n -> wsum q' n r = wsum q n r).
-    { induction r as [|b r IHr]; intros n L; simpl; auto. rewrite (M n) by lia. rewrite IHr by lia. reflexivity. }
-    rewrite (W l (S k)) by lia. lia.
-  - rewrite (M k) by lia.
-    replace (k + S i) with (S k + i) in * by lia.
-    assert (IH' := IH (S k) i x y E (fun j Hj => M j Hj)). lia.
-Qed.
 
 Lemma mem_app_other j u l : j <> u -> mem j (l ++ [u]) = mem j l.
 Proof.
@@ -73,86 +35,18 @@ Proof. unfold mem. rewrite existsb_app. cbn. rewrite Nat.eqb_refl. cbn. apply or
 Lemma mem_remove_le j u l : mem j (remove_nat u l) = true -> mem j l = true.
 Proof. destruct (Nat.eq_dec j u) as [->|N]; [rewrite mem_remove_same; discriminate | rewrite mem_remove_other; auto]. Qed.
 
-Ltac wfact :=
-  match goal with
-  | E : nth_error (workers ?s) ?i = Some ?x |- context [wsum ?q' 0 (upd ?i ?y _)] =>
-      let F := fresh "WF" in
-      assert (F := wsum_change (qc_wait s) q' (workers s) 0 i x y E);
-      cbn [plus] in F;
-      let M := fresh "M" in
-      assert (M : forall j, j <> i -> mem (S j) q' = mem (S j) (qc_wait s))
-        by (intros j Hj; first [ reflexivity | apply mem_app_other; congruence | apply mem_remove_other; congruence ]);
-      specialize (F M); clear M
-  end.
-
-Lemma rank_step s l s' :
-  waiting (pc0 s) = true -> step s l = Some s' ->
-  (is_spurious l = false -> rank s' < rank s) /\ (is_spurious l = true -> rank s' <= rank s + spurious_cost).
-Proof.
-  unfold rank, crank, spurious_cost. intros W H.
-  break_step H; cbn -[Nat.mul mem wsum Nat.sub remove_nat] in *;
-    repeat match goal with C : pc0 _ = _ |- _ => rewrite C in *; cbn -[Nat.mul mem wsum Nat.sub remove_nat] in * end;
-    try discriminate.
-  all: split; intros SP; try discriminate; subst.
-  all: repeat match goal with
-              | B : _ && Bool.eqb _ _ = true |- _ => apply andb_prop in B; destruct B as [_ B]; apply eqb_prop in B
-              end.
-  all: try (destruct spurious; try discriminate).
-  all: repeat match goal with Q : queue _ = _ |- _ => rewrite Q in *; cbn [length] in * end.
-  (* client steps *)
-  all: try solve [ destruct (cont0 s); lia ].
-  all: try solve [ rewrite ?mem_app_same, ?mem_remove_same in *;
-                   repeat match goal with |- context [if ?b then _ else _] => destruct b eqn:? end; try discriminate; lia ].
-  (* worker steps *)
-  all: try match goal with |- context [if negb (?t =? ?t1) then ?t1 :: remove_nat ?t ?l else remove_nat ?t ?l] =>
-         change (if negb (t =? t1) then t1 :: remove_nat t l else remove_nat t l) with (remove_nat t (t1 :: l)) end.
-  all: try match goal with |- context [mem 0 (remove_nat ?u ?l)] =>
-         let E := fresh "E" in
-         destruct (mem 0 (remove_nat u l)) eqn:E;
-         [ apply mem_remove_le in E; match goal with Q : wc_wait _ = _ |- _ => rewrite <- Q in E end; rewrite E | ]
-       end.
-  all: try solve [ wfact; unfold wrank in WF; cbn in WF;
-                   repeat match goal with P : w_pc _ = _ |- _ => rewrite P in WF end;
-                   repeat match goal with P : w_cont _ = _ |- _ => rewrite P in WF end;
-                   repeat match goal with P : _ = mem _ _ |- _ => rewrite <- P in WF end;
-                   rewrite ?mem_app_same, ?mem_remove_same in WF; cbn in WF;
-                   repeat match type of WF with context [if ?b then _ else _] => destruct b eqn:? end;
-                   cbn in WF; try discriminate; try lia;
-                   destruct (pc0 s); try lia;
-                   repeat match goal with |- context [if ?b then _ else _] => destruct b end; lia ].
-Qed.
-
-(* executions during which the client stays inside wait *)
-Fixpoint stays_waiting (s : state) (tr : list label) : Prop :=
-  match tr with
-  | [] => True
-  | l :: r => waiting (pc0 s) = true /\ match step s l with Some s1 => stays_waiting s1 r | None => True end
-  end.
-Definition n_spurious (tr : list label) : nat := length (filter is_spurious tr).
-Definition n_other (tr : list label) : nat := length (filter (fun l => negb (is_spurious l)) tr).
-
-Lemma pool_wait_rank_bound tr : forall s s',
-  run s tr = Some s' -> stays_waiting s tr ->
-  n_other tr + rank s' <= rank s + spurious_cost * n_spurious tr.
-Proof.
-  unfold n_other, n_spurious. induction tr as [|l r IH]; intros s s' H SW; simpl in *.
-  - inversion H; subst. lia.
-  - unfold bind in H. destruct SW as [W SW]. destruct (step s l) as [s1|] eqn:E; try discriminate.
-    specialize (IH s1 s' H SW). destruct (rank_step s l s1 W E) as [D U].
-    unfold spurious_cost in *.
-    destruct (is_spurious l) eqn:SP; cbn [negb length] in *.
-    + specialize (U eq_refl). lia.
-    + specialize (D eq_refl). lia.
-Qed.
-
-(* ------------------------------------------------------------------ Part 2: deadlock freedom *)
 Definition w_holds_wc (p : wpc) : bool :=
-  match p with WLockQC | WRunUnlockQC _ | WRunUnlockWC _ | WIdleSignal | WIdleUnlockWC => true | _ => false end.
+  match p with
+  | WLockQC | WRunUnlockQC _ | WRunUnlockWC _ | WIdleSignal | WIdleUnlockWC | WExitSignal | WExitUnlockWC => true
+  | _ => false end.
 Definition w_holds_qc (p : wpc) : bool :=
-  match p with WRunUnlockQC _ | WIdleSignal | WIdleUnlockWC | WCondWait | WWokenUnlockQC | WExitUnlockQC => true | _ => false end.
+  match p with
+  | WRunUnlockQC _ | WIdleSignal | WIdleUnlockWC | WCondWait | WWokenUnlockQC | WExitUnlockQC
+  | WAsgSignal _ _ | WAsgUnlock _ _ => true
+  | _ => false end.
 Definition c_holds_wc (p : cpc) : bool := match p with CWaitCond _ | CWaitUnlock _ => true | _ => false end.
 Definition c_holds_qc (p : cpc) : bool :=
-  match p with CAsgSignal | CAsgUnlock | CKillBcast _ _ | CKillUnlock _ _ => true | _ => false end.
+  match p with CAsgSignal _ | CAsgUnlock _ | CKillBcast _ _ | CKillUnlock _ _ => true | _ => false end.
 
 Definition OwnA (s : state) : Prop :=
   (forall i x, nth_error (workers s) i = Some x ->
@@ -254,10 +148,11 @@ Qed.
 
 (* ---- the waiter sleeps only while there is a reason ---- *)
 Definition is_waitcond (p : cpc) : bool := match p with CWaitCond _ => true | _ => false end.
+Definition wc_signaller (p : wpc) : bool := match p with WIdleSignal | WExitSignal => true | _ => false end.
 Definition WaitInv (s : state) : Prop :=
   (forall u, In u (wc_wait s) -> u = 0) /\
   (mem 0 (wc_wait s) = true ->
-     busy_counter s <> 0%Z \/ queue s <> [] \/ exists i x, nth_error (workers s) i = Some x /\ w_pc x = WIdleSignal) /\
+     busy_counter s <> 0%Z \/ queue s <> [] \/ exists i x, nth_error (workers s) i = Some x /\ wc_signaller (w_pc x) = true) /\
   (is_waitcond (pc0 s) = true -> busy_counter s <> 0%Z \/ queue s <> []).
 
 Lemma waitinv_init : WaitInv init.
@@ -316,17 +211,20 @@ Proof.
                      | match goal with E : nth_error (workers _) ?i = Some ?x |- context [upd ?i ?y' _] =>
                          destruct (Nat.eq_dec i j) as [EQ|NQ];
                          [ subst; rewrite Ej in E; inversion E; subst;
-                           first [ congruence | exists j, y'; split; [apply (upd_nth_same _ _ _ _ Ej) | exact Pj] ]
+                           first [ congruence
+                                 | solve [ repeat match goal with P : w_pc _ = _ |- _ => rewrite P in Pj end; discriminate Pj ]
+                                 | exists j, y'; split; [apply (upd_nth_same _ _ _ _ Ej) | exact Pj] ]
                          | exists j, y; split; [rewrite upd_nth_other by assumption; exact Ej | exact Pj] ]
                        end ] ].
   all: try solve [ match goal with Q : wc_wait _ = [] |- _ => rewrite Q end; intros; discriminate ].
+  all: try solve [ intros IW; exfalso; destruct (pc0 s); try discriminate; specialize (CW eq_refl); congruence ].
+  all: try solve [ intros _; right; destruct (queue s); discriminate ].
   all: match goal with Q : wc_wait _ = ?a :: ?r, M : mem ?t (?a :: ?r) = true |- _ =>
          assert (a = 0) by (apply W1; rewrite Q; left; reflexivity);
          assert (t = 0) by (apply W1; rewrite Q; apply mem_true; exact M); subst; cbn [Nat.eqb negb];
          assert (WR : forall u, In u r -> u = 0) by (intros u I; apply W1; rewrite Q; right; exact I)
        end.
-  - intros u I. apply in_remove_nat in I. auto.
-  - rewrite mem_remove_same. intros; discriminate.
+  all: first [ solve [ intros u I; apply in_remove_nat in I; auto ] | rewrite mem_remove_same; intros; discriminate ].
 Qed.
 
 (* ---- whoever is in the wait set of queue_changed is a worker inside cond_wait ---- *)
@@ -375,10 +273,24 @@ Proof.
                         [ destruct I as [<-|I]; [left; reflexivity | right; apply in_remove_nat in I; exact I]
                         | right; apply in_remove_nat in I; exact I ]);
                      rewrite <- W in I'; destruct (Q u I') as (j & y & -> & Ej & Pj); exists j, y; auto end ].
+  (* a task body signals queue_changed *)
+  all: try solve [ intros u I;
+                   match goal with W : qc_wait _ = ?a :: ?r |- _ =>
+                     assert (I' : In u (a :: r)) by
+                       (match type of I with In _ (if ?c then _ else _) => destruct c end;
+                        [ destruct I as [<-|I]; [left; reflexivity | right; apply in_remove_nat in I; exact I]
+                        | right; apply in_remove_nat in I; exact I ]);
+                     rewrite <- W in I'; destruct (Q u I') as (j & y & -> & Ej & Pj) end;
+                   match goal with E : nth_error (workers _) ?i = Some ?x |- context [upd ?i ?y' _] =>
+                     destruct (Nat.eq_dec i j) as [EQ|NQ];
+                     [ subst; rewrite Ej in E; inversion E; subst; congruence
+                     | exists j, y; split; [reflexivity | split; [rewrite upd_nth_other by assumption; exact Ej | exact Pj]] ]
+                   end ].
 Qed.
 
 (* ---- exit paths are taken by freed workers only; a worker about to sleep is alive; kill lists are non-empty ---- *)
-Definition is_exitpc (p : wpc) : bool := match p with WExitUnlockQC | WExit | WExited => true | _ => false end.
+Definition is_exitpc (p : wpc) : bool :=
+  match p with WExitUnlockQC | WExitLockWC | WExitSignal | WExitUnlockWC | WExit | WExited => true | _ => false end.
 Definition MiscW (x : worker) : Prop :=
   (is_exitpc (w_pc x) = true -> w_alive x = false) /\ (w_pc x = WCondWait -> w_alive x = true).
 Definition Misc (s : state) : Prop :=
@@ -516,34 +428,56 @@ Proof.
     pose proof (nc_after_kills (plist s) AFree). destruct (after_kills (plist s) AFree); try contradiction; exact CL.
 Qed.
 
-(* ---- disciplined model: a busy worker is on its way to (or in) a task ---- *)
+(* ---- a busy worker is on its way to (or in) a task, or (repaired) about to give its slot back.
+        True under the discipline, and true in the repaired pool without any discipline; false in the
+        unrepaired pool without discipline (C06_pool_limit_while_running_refuted). ---- *)
 Definition busypc (p : wpc) : bool :=
-  match p with WTop | WLockWC | WLockQC | WRunUnlockQC _ | WRunUnlockWC _ | WRunStart _ | WRunYield _ | WRunEnd _ => true | _ => false end.
+  match p with
+  | WTop | WLockWC | WLockQC | WRunUnlockQC _ | WRunUnlockWC _ | WRunStart _ _ | WRunYield _ _ | WRunEnd _ _
+  | WAsgLock _ _ _ | WAsgSignal _ _ | WAsgUnlock _ _ | WAsgRet _ _ | WExitLockWC => true
+  | _ => false end.
 Definition BP (s : state) : Prop :=
   forall i x, nth_error (workers s) i = Some x -> w_busy x = true -> busypc (w_pc x) = true.
 
 Lemma bp_init : BP init. Proof. intros [|i] x H; discriminate. Qed.
 
+Ltac bp_tac B extra :=
+  first
+  [ assumption
+  | solve [ match goal with |- context [workers ?s0 ++ _] =>
+              intros j y Hy; destruct (Nat.lt_ge_cases j (length (workers s0))) as [L|L];
+              [ rewrite nth_error_app1 in Hy by assumption; apply (B j y Hy)
+              | rewrite nth_error_app2 in Hy by assumption;
+                destruct (j - length (workers s0))%nat as [|[|?]]; cbn in Hy; inversion Hy; subst; cbn; intros; discriminate ] end ]
+  | solve [ intros j y Hy BB; apply upd_nth_inv in Hy; destruct Hy as [[<- ->]|[NE Hy]]; [| apply (B j y Hy BB)];
+            cbn in *; try reflexivity; try discriminate;
+            match goal with E : nth_error (workers _) _ = Some ?x |- _ =>
+              first [ pose proof (B _ _ E BB) as BX;
+                      repeat match goal with P : w_pc _ = _ |- _ => rewrite P in * end; cbn in *;
+                      first [reflexivity | discriminate | assumption | destruct (inline_mode _); reflexivity
+                            | match goal with |- busypc (match ?st with _ => _ end) = true => destruct st; reflexivity end ]
+                    | extra E ]
+            end ] ].
+
 Lemma bp_step s l s' : Disc s -> BP s -> step s l = Some s' -> BP s'.
 Proof.
   unfold BP. intros [D K] B H.
   break_step H; cbn -[Nat.sub firstn skipn Z.add Z.sub] in *.
-  all: try assumption.
-  all: try solve [ intros j y Hy; destruct (Nat.lt_ge_cases j (length (workers s))) as [L|L];
-                   [ rewrite nth_error_app1 in Hy by assumption; apply (B j y Hy)
-                   | rewrite nth_error_app2 in Hy by assumption;
-                     destruct (j - length (workers s))%nat as [|[|?]]; cbn in Hy; inversion Hy; subst; cbn; intros; discriminate ] ].
-  all: try solve [ intros j y Hy BB; apply upd_nth_inv in Hy; destruct Hy as [[<- ->]|[NE Hy]]; [| apply (B j y Hy BB)];
-                   cbn in *; try reflexivity; try discriminate;
-                   match goal with E : nth_error (workers _) _ = Some ?x |- _ =>
-                     first [ pose proof (B _ _ E BB) as BX;
-                             repeat match goal with P : w_pc _ = _ |- _ => rewrite P in * end; cbn in *; first [reflexivity | discriminate | assumption]
-                           | (* tau on a freed worker *)
-                             match goal with AL : w_alive x = false |- _ => destruct (D _ _ E AL) as [NB _]; congruence end ]
-                   end ].
+  all: bp_tac B ltac:(fun E => (* tau on a freed worker: not busy under the discipline *)
+         match goal with AL : w_alive _ = false |- _ => destruct (D _ _ E AL) as [NB _]; congruence end).
 Qed.
 
-(* ---- the worker being freed is dead, and is never left asleep without a signal ---- *)
+(* the repaired pool: no discipline needed *)
+Definition BPr (s : state) : Prop := repaired s = true /\ BP s.
+Lemma bpr_init : BPr init_r. Proof. split; [reflexivity | intros [|i] x H; discriminate]. Qed.
+Lemma bpr_step s l s' : BPr s -> step s l = Some s' -> BPr s'.
+Proof.
+  unfold BPr, BP. intros [R B] H.
+  break_step H; cbn -[Nat.sub firstn skipn Z.add Z.sub] in *; try discriminate R; (split; [assumption|]).
+  all: bp_tac B ltac:(fun E => congruence).
+Qed.
+
+(* ---- the worker being freed is dead, and is never left asleep without a signal (any trace) ---- *)
 Definition is_killbcast (p : cpc) (w : tid) : bool :=
   match p with CKillBcast (v :: _) _ => Nat.eqb v w | _ => false end.
 Definition DeadW (s : state) : Prop :=
@@ -565,9 +499,9 @@ Proof.
   - right. apply in_remove_nat in H. exact H.
 Qed.
 
-Lemma deadw_step s l s' : Disc s -> Misc s -> DeadW s -> step s l = Some s' -> DeadW s'.
+Lemma deadw_step s l s' : Misc s -> DeadW s -> step s l = Some s' -> DeadW s'.
 Proof.
-  unfold DeadW. intros [D K] [MW MK] [D1 D2] H.
+  unfold DeadW. intros [MW MK] [D1 D2] H.
   break_step H; cbn -[Nat.sub firstn skipn Z.add Z.sub mem remove_nat] in *;
     rewrite ?killing_after_kills, ?killing_after_creates, ?ikb_after_kills, ?ikb_after_creates;
     repeat match goal with C : pc0 _ = _ |- _ => rewrite C in *; cbn -[Nat.sub firstn skipn Z.add Z.sub mem remove_nat] in * end;
@@ -600,7 +534,6 @@ Proof.
                      end
                    | rewrite ?mem_app_other, ?mem_remove_other in MM by congruence;
                      first [ eapply D2; eauto
-                           | exfalso; destruct (D _ _ Hy AL) as [_ [DX|DX]]; [congruence | discriminate DX]
                            | exfalso; pose proof (D2 _ _ Hy AL PW MM); discriminate ] ] ].
   - intros j y Hy KK. inversion KK; subst. apply upd_nth_inv in Hy. destruct Hy as [[_ ->]|[NE _]]; [reflexivity | congruence].
   - intros j y Hy AL PW MM. apply upd_nth_inv in Hy. destruct Hy as [[<- ->]|[NE Hy]]; [cbn in * | ]; eapply D2; eauto.
@@ -608,30 +541,36 @@ Proof.
     match goal with Q : qc_wait s = _ |- _ =>
       assert (MM' : mem (S j) (qc_wait s) = true) by (rewrite Q; exact MM) end.
     pose proof (D2 _ _ Hy AL PW MM'). discriminate.
+  - intros j y Hy AL PW MM. apply mem_if_remove in MM.
+    match goal with Q : qc_wait s = _ |- _ =>
+      assert (MM' : mem (S j) (qc_wait s) = true) by (rewrite Q; exact MM) end.
+    apply upd_nth_inv in Hy. destruct Hy as [[<- ->]|[NE Hy]]; [cbn in PW; discriminate PW | eapply D2; eauto].
 Qed.
 
-(* ---- a non-empty queue is always being looked at (no lost wake-up on queue_changed) ---- *)
-Definition looker (p : wpc) (sg : bool) : bool :=
-  match p with
-  | WStart | WTop | WLockWC | WLockQC | WRunUnlockQC _ | WRunUnlockWC _ | WRunStart _ | WRunYield _ | WRunEnd _
-  | WWokenUnlockQC => true
-  | WWaiting => sg
-  | _ => false
-  end.
-Definition sig (s : state) (i : nat) : bool := negb (mem (S i) (qc_wait s)).
-Definition is_asgsignal (p : cpc) : bool := match p with CAsgSignal => true | _ => false end.
-Definition QInv (s : state) : Prop :=
-  queue s <> [] ->
-  is_asgsignal (pc0 s) = true \/ exists i x, nth_error (workers s) i = Some x /\ looker (w_pc x) (negb (mem (S i) (qc_wait s))) = true.
+(* ---- a non-empty queue is always being looked at (no lost wake-up on queue_changed), on every trace:
+        while the pool list is non-empty, either a signal / broadcast on queue_changed is pending, or some
+        worker is about to signal it, or some LIVE worker is not asleep-without-signal ---- *)
+Definition is_waiting_pc (p : wpc) : bool := match p with WWaiting => true | _ => false end.
+Definition is_wasgsignal (p : wpc) : bool := match p with WAsgSignal _ _ => true | _ => false end.
+Definition qlook (q : list tid) (i : nat) (x : worker) : bool :=
+  is_wasgsignal (w_pc x) || (w_alive x && negb (is_waiting_pc (w_pc x) && mem (S i) q)).
+Definition c_sigpending (p : cpc) : bool := match p with CAsgSignal _ | CKillBcast _ _ => true | _ => false end.
+Definition QInvG (s : state) : Prop :=
+  queue s <> [] -> plist s <> [] ->
+  c_sigpending (pc0 s) = true \/ exists i x, nth_error (workers s) i = Some x /\ qlook (qc_wait s) i x = true.
 
-Lemma looker_mono p a q u : looker p (negb (mem a q)) = true -> looker p (negb (mem a (remove_nat u q))) = true.
+Lemma qinvg_init : QInvG init. Proof. intros H; exfalso; apply H; reflexivity. Qed.
+Lemma qinvg_init_r : QInvG init_r. Proof. intros H; exfalso; apply H; reflexivity. Qed.
+
+Lemma csp_after_kills l a : c_sigpending (after_kills l a) = false. Proof. destruct l; reflexivity. Qed.
+Lemma csp_after_creates k a : c_sigpending (after_creates k a) = false. Proof. destruct k; [destruct a|]; reflexivity. Qed.
+
+Lemma qlook_remove q u i x : qlook q i x = true -> qlook (remove_nat u q) i x = true.
 Proof.
-  destruct p; cbn; auto. intros H. destruct (mem a (remove_nat u q)) eqn:E; auto.
+  unfold qlook. destruct (is_wasgsignal (w_pc x)); cbn; auto. destruct (w_alive x); cbn; auto.
+  destruct (is_waiting_pc (w_pc x)); cbn; auto. intros H. destruct (mem (S i) (remove_nat u q)) eqn:E; auto.
   apply mem_remove_le in E. rewrite E in H. discriminate.
 Qed.
-Lemma looker_true p sg : looker p sg = true -> looker p true = true.
-Proof. destruct p; cbn; auto. Qed.
-
 Lemma mem_if_remove_same t a r :
   mem t (if negb (Nat.eqb t a) then a :: remove_nat t r else remove_nat t r) = false.
 Proof.
@@ -639,69 +578,115 @@ Proof.
   - apply mem_remove_same.
   - unfold mem. cbn [existsb]. apply Nat.eqb_neq in N. rewrite N. cbn. apply mem_remove_same.
 Qed.
+Lemma qlook_nil i x : w_alive x = true -> qlook [] i x = true.
+Proof. unfold qlook. intros ->. cbn. rewrite andb_false_r. apply orb_true_r. Qed.
 
-Lemma qinv_init : QInv init. Proof. intros H; exfalso; apply H; reflexivity. Qed.
-
-Lemma ias_after_kills l a : is_asgsignal (after_kills l a) = false. Proof. destruct l; reflexivity. Qed.
-Lemma ias_after_creates k a : is_asgsignal (after_creates k a) = false. Proof. destruct k; [destruct a|]; reflexivity. Qed.
-
-Lemma qinv_step s l s' :
-  OwnA s -> Disc s -> NLW s -> QW s -> Misc s -> PL s -> QInv s -> step s l = Some s' -> QInv s'.
+(* the first member of a non-empty pool list is a live worker *)
+Lemma plist_alive s : PL s -> plist s <> [] -> exists j y, nth_error (workers s) j = Some y /\ w_alive y = true /\ In (S j) (plist s).
 Proof.
-  unfold QInv. intros (A & CW & CQ) [D K] NL Q [MW MK] (ND & V & AL & LEN & CL) QI H.
-  break_step H; cbn -[Nat.sub firstn skipn Z.add Z.sub mem remove_nat] in *; norm_own;
-    rewrite ?ias_after_kills, ?ias_after_creates;
-    repeat match goal with C : pc0 _ = _ |- _ => rewrite C in *; cbn -[Nat.sub firstn skipn Z.add Z.sub mem remove_nat] in * end.
+  intros (ND & V & AL & _) NE. destruct (plist s) as [|w pl] eqn:E; [congruence|].
+  destruct (V w) as (j & y & -> & Ej); [left; reflexivity|].
+  exists j, y. split; [exact Ej|]. split; [eapply AL; [left; reflexivity | exact Ej] | left; reflexivity].
+Qed.
+
+Ltac qg_same Lj :=
+  unfold qlook in *; cbn [w_pc w_alive set_wpc set_wpc_cont set_wcont set_wbusy_pc set_walive set_wjoined] in *;
+  repeat match goal with P : w_pc _ = _ |- _ => rewrite P in Lj end;
+  cbn [is_wasgsignal is_waiting_pc orb andb negb] in *;
+  rewrite ?mem_app_same, ?mem_remove_same; cbn [is_wasgsignal is_waiting_pc orb andb negb] in *;
+  first [ exact Lj | discriminate Lj
+        | destruct (w_alive _); cbn in *; first [reflexivity | discriminate Lj | exact Lj]
+        | match goal with |- context [match ?st with _ => _ end] => destruct st end;
+          destruct (w_alive _); cbn in *; first [reflexivity | discriminate Lj | exact Lj]
+        | destruct (inline_mode _); destruct (w_alive _); cbn in *; first [reflexivity | discriminate Lj | exact Lj] ].
+Ltac qg_other Lj :=
+  first [ exact Lj | apply qlook_remove; exact Lj
+        | unfold qlook in *; rewrite mem_app_other by congruence; exact Lj ].
+Ltac qg_carry QI :=
+  let QN := fresh "QN" in let PN := fresh "PN" in
+  intros QN PN;
+  match goal with s0 : state |- _ =>
+    let QN0 := fresh "QN0" in let PN0 := fresh "PN0" in
+    assert (QN0 : queue s0 <> []) by (first [exact QN | congruence]);
+    assert (PN0 : plist s0 <> []) by (first [exact PN | congruence]);
+    destruct (QI QN0 PN0) as [C | (j & y & Ej & Lj)];
+    [ first [ left; exact C | discriminate C ]
+    | right;
+      first
+        [ exists j, y; split; [first [exact Ej | apply nth_error_app_l; exact Ej] | qg_other Lj]
+        | match goal with E : nth_error (workers _) ?i = Some ?x |- context [upd ?i ?y' _] =>
+            destruct (Nat.eq_dec i j) as [EQ|NQ];
+            [ subst; rewrite Ej in E; inversion E; subst;
+              exists j, y'; split; [apply (upd_nth_same _ _ _ _ Ej) | qg_same Lj]
+            | exists j, y; split; [rewrite upd_nth_other by assumption; exact Ej | qg_other Lj] ]
+          end ] ]
+  end.
+
+Lemma qinvg_step s l s' :
+  OwnA s -> NLW s -> QW s -> Misc s -> PL s -> DeadW s -> QInvG s -> step s l = Some s' -> QInvG s'.
+Proof.
+  unfold QInvG. intros (A & CW & CQ) NL Q [MW MK] PLs [D1 D2] QI H.
+  pose proof (plist_alive s PLs) as PA.
+  break_step H; cbn -[Nat.sub firstn skipn Z.add Z.sub mem remove_nat qlook] in *; norm_own;
+    rewrite ?csp_after_kills, ?csp_after_creates;
+    repeat match goal with C : pc0 _ = _ |- _ => rewrite C in *; cbn -[Nat.sub firstn skipn Z.add Z.sub mem remove_nat qlook] in * end.
   all: try assumption.
-  (* push *)
-  all: try solve [ intros _; left; reflexivity ].
-  (* pop: the popping worker keeps looking *)
-  all: try solve [ intros _; right;
-                   match goal with E : nth_error (workers _) ?i = Some ?x |- context [upd ?i ?y _] =>
-                     exists i, y; split; [apply (upd_nth_same _ _ _ _ E) | reflexivity] end ].
-  (* carried over *)
-  all: try solve [ intros QN; destruct (QI QN) as [C | (j & y & Ej & Lj)];
-                   [ first [ left; exact C | discriminate C ] | right ];
-                   first
-                     [ exists j, y; split; [first [exact Ej | apply nth_error_app_l; exact Ej]
-                                           | first [exact Lj | apply looker_mono; exact Lj | eapply looker_true; exact Lj]]
-                     | match goal with E : nth_error (workers _) ?i = Some ?x |- context [upd ?i ?y' _] =>
-                         destruct (Nat.eq_dec i j) as [EQ|NQ];
-                         [ subst; rewrite Ej in E; inversion E; subst;
-                           exists j, y'; split; [apply (upd_nth_same _ _ _ _ Ej) |];
-                           repeat match goal with P : w_pc _ = _ |- _ => rewrite P in * end; cbn in *;
-                           rewrite ?mem_remove_same; first [reflexivity | exact Lj | discriminate Lj]
-                         | exists j, y; split; [rewrite upd_nth_other by assumption; exact Ej |];
-                           rewrite ?mem_app_other, ?mem_remove_other by congruence; exact Lj ]
-                       end ] ].
-  - (* a freed worker reads alive = false: the queue is empty then *)
-    intros QN. exfalso. destruct (D _ _ Heqo Heqb0) as [_ [DX|DX]]; [congruence|].
-    destruct (K (killing_inkill _ _ DX)) as [K1 _]. congruence.
-  - intros QN. exfalso. apply QN. assumption.
-  - intros QN. exfalso. apply QN. assumption.
-  - (* signal releases a waiter: it becomes a looker *)
-    intros QN. right.
-    match goal with W : qc_wait s = ?a :: ?r, M : mem ?t (?a :: ?r) = true |- _ =>
-      assert (I : In t (qc_wait s)) by (rewrite W; apply mem_true; exact M);
-      destruct (Q t I) as (j & y & -> & Ej & Pj); exists j, y; split; [exact Ej|];
-      rewrite Pj; cbn [looker]; rewrite mem_if_remove_same; reflexivity
-    end.
-  - (* nobody was waiting: some live worker is on its way to the queue *)
-    intros QN. right.
-    specialize (LEN eq_refl). cbn in LEN.
-    destruct (plist s0) as [|w pl] eqn:PLE; [cbn in LEN; lia|].
-    destruct (V w (or_introl eq_refl)) as (j & y & -> & Ej).
-    assert (ALy : w_alive y = true) by (eapply AL; [left; reflexivity | exact Ej]).
-    exists j, y. split; [exact Ej|].
-    match goal with W : qc_wait s0 = [] |- _ => rewrite W end. cbn [mem existsb negb].
-    destruct (A _ _ Ej) as [_ A2]. destruct (MW _ _ Ej) as [M1 _]. specialize (CQ eq_refl).
-    destruct (w_pc y); cbn in *; try reflexivity;
-      first [ specialize (A2 eq_refl); congruence | specialize (M1 eq_refl); congruence ].
+  all: try solve [ intros _ _; left; reflexivity ].
+  all: try solve [ qg_carry QI ].
+  - (* a task body pushes: it is about to signal *)
+    intros _ _. right. exists t0. eexists. split; [apply (upd_nth_same _ _ _ _ Heqo) | reflexivity].
+  - (* a live worker goes to sleep: it saw the queue empty and still holds the mutex *)
+    intros QN _. exfalso. apply QN. apply (NL _ _ Heqo). rewrite Heqw0. reflexivity.
+  - (* client signal releases a waiter: it is alive *)
+    intros _ _. right.
+    assert (I : In t (qc_wait s)) by (rewrite Heql; apply mem_true; exact Heqb0).
+    destruct (Q t I) as (j & y & -> & Ej & Pj). exists j, y. split; [exact Ej|].
+    unfold qlook. rewrite Pj. cbn [is_wasgsignal is_waiting_pc orb andb]. rewrite mem_if_remove_same.
+    destruct (w_alive y) eqn:AL; [reflexivity|]. exfalso.
+    assert (MM : mem (S j) (qc_wait s) = true) by (apply mem_true; exact I).
+    pose proof (D2 _ _ Ej AL Pj MM) as F. discriminate F.
+  - (* nobody was waiting *)
+    intros _ PN. right. destruct (PA PN) as (j & y & Ej & ALy & _). exists j, y. split; [exact Ej|].
+    rewrite Heql. apply qlook_nil. exact ALy.
+  - (* a task body's signal releases a waiter: it is alive (else the client would hold the mutex) *)
+    intros _ _. right.
+    assert (I : In t (qc_wait s)) by (rewrite Heql; apply mem_true; exact Heqb0).
+    destruct (Q t I) as (j & y & -> & Ej & Pj).
+    assert (NE : t0 <> j) by (intros ->; rewrite Ej in Heqo; inversion Heqo; subst; congruence).
+    exists j, y. split; [rewrite upd_nth_other by assumption; exact Ej|].
+    unfold qlook. rewrite Pj. cbn [is_wasgsignal is_waiting_pc orb andb]. rewrite mem_if_remove_same.
+    destruct (w_alive y) eqn:AL; [reflexivity|]. exfalso.
+    assert (MM : mem (S j) (qc_wait s) = true) by (apply mem_true; exact I).
+    pose proof (D2 _ _ Ej AL Pj MM) as F.
+    assert (HC : c_holds_qc (pc0 s) = true) by (destruct (pc0 s); try discriminate F; reflexivity).
+    specialize (CQ HC). destruct (A _ _ Heqo) as [_ A2]. rewrite Heqw0 in A2. specialize (A2 eq_refl). congruence.
+  - (* nobody was waiting *)
+    intros _ PN. right. destruct (PA PN) as (j & y & Ej & ALy & _).
+    rewrite Heql. destruct (Nat.eq_dec t0 j) as [->|NE].
+    + eexists j, _. split; [apply (upd_nth_same _ _ _ _ Heqo)|]. rewrite Ej in Heqo. inversion Heqo; subst.
+      apply qlook_nil. exact ALy.
+    + exists j, y. split; [rewrite upd_nth_other by assumption; exact Ej | apply qlook_nil; exact ALy].
+  - (* broadcast: everybody is awake *)
+    intros _ PN. right. destruct (PA PN) as (j & y & Ej & ALy & _). exists j, y. split; [exact Ej | apply qlook_nil; exact ALy].
+  - (* create: the new worker *)
+    intros _ _. right. exists (length (workers s)), new_worker. split.
+    + rewrite nth_error_app2 by lia. rewrite Nat.sub_diag. reflexivity.
+    + unfold qlook. cbn. reflexivity.
+  - (* join: the joined worker is dead, it was not the witness *)
+    intros QN PN. destruct (QI QN PN) as [C | (j & y & Ej & Lj)]; [discriminate C|]. right.
+    destruct (Nat.eq_dec t j) as [->|NE].
+    + exfalso. rewrite Ej in H0. inversion H0; subst. pose proof (D1 _ _ Ej eq_refl) as AL.
+      unfold qlook in Lj. rewrite Heqw0, AL in Lj. discriminate Lj.
+    + exists j, y. split; [rewrite upd_nth_other by assumption; exact Ej | exact Lj].
+  - (* the limit is lowered: the remaining list is part of the old one *)
+    intros QN PN.
+    assert (PN0 : plist s <> []) by (intros E; rewrite E, skipn_nil in PN; apply PN; reflexivity).
+    destruct (QI QN PN0) as [C | (j & y & Ej & Lj)]; [discriminate C|]. right. exists j, y. split; assumption.
 Qed.
 
 (* ---- shape of the client program counter ---- *)
 Definition is_ret (e : uev) : bool :=
-  match e with ENewRet | EAssignRet | EWaitRet | ESetLimitRet | EFreeRet => true | _ => false end.
+  match e with ENewRet | EWaitRet | ESetLimitRet | EFreeRet => true | _ => false end.
 Definition CC (s : state) : Prop :=
   match pc0 s with CCreate O _ => False | CRet e => is_ret e = true | _ => True end.
 Lemma cc_after_kills l a : match after_kills l a with CCreate O _ => False | CRet e => is_ret e = true | _ => True end.
@@ -718,23 +703,37 @@ Proof.
   all: try solve [ destruct (pn s =? 1); cbn; destruct (strict s); cbn; auto ].
 Qed.
 
-(* ---- all invariants of the disciplined model ---- *)
-Record InvD (s : state) : Prop := mkInvD {
-  i_busy : Busy s; i_disc : Disc s; i_nlw : NLW s; i_owna : OwnA s; i_ownb : OwnB s; i_wait : WaitInv s;
-  i_qw : QW s; i_misc : Misc s; i_pl : PL s; i_bp : BP s; i_deadw : DeadW s; i_qinv : QInv s; i_cc : CC s }.
+(* ---- the general invariants: every trace, with or without discipline, repaired or not ---- *)
+Record InvG (s : state) : Prop := mkInvG {
+  g_busy : Busy s; g_nlw : NLW s; g_owna : OwnA s; g_ownb : OwnB s; g_wait : WaitInv s;
+  g_qw : QW s; g_misc : Misc s; g_pl : PL s; g_deadw : DeadW s; g_qinv : QInvG s; g_cc : CC s }.
 
-Lemma invd_init : InvD init.
+Lemma invg_init : InvG init.
 Proof.
-  constructor; [apply busy_init | apply disc_init | intros [|i] x H; discriminate | apply owna_init | apply ownb_init
-               | apply waitinv_init | apply qw_init | apply misc_init | apply pl_init | apply bp_init | apply deadw_init
-               | apply qinv_init | exact I].
+  constructor; [apply busy_init | intros [|i] x H; discriminate | apply owna_init | apply ownb_init
+               | apply waitinv_init | apply qw_init | apply misc_init | apply pl_init | apply deadw_init
+               | apply qinvg_init | exact I].
 Qed.
-Lemma invd_step s l s' : InvD s -> step_d s l = Some s' -> InvD s'.
+Lemma invg_init_r : InvG init_r.
 Proof.
-  intros [] H. pose proof (step_d_step _ _ _ H) as H'.
+  constructor.
+  - split; [reflexivity | constructor].
+  - intros [|i] x H; discriminate.
+  - split; [intros [|i] x H; discriminate | split; intros; discriminate].
+  - split; intros H; exfalso; apply H; reflexivity.
+  - split; [intros u []|]. split; intros; discriminate.
+  - intros u [].
+  - split; [intros [|i] x H; discriminate | intros; discriminate].
+  - repeat split; cbn; try constructor; try (intros ? []); try (intros ? ? []); auto.
+  - split; intros [|i] x H; discriminate.
+  - apply qinvg_init_r.
+  - exact I.
+Qed.
+Lemma invg_step s l s' : InvG s -> step s l = Some s' -> InvG s'.
+Proof.
+  intros [] H.
   constructor.
   - eapply busy_step; eauto.
-  - eapply disc_step; eauto.
   - eapply nlw_step; eauto.
   - eapply owna_step; eauto.
   - eapply ownb_step; eauto.
@@ -742,21 +741,47 @@ Proof.
   - eapply qw_step; eauto.
   - eapply misc_step; eauto.
   - eapply pl_step; eauto.
-  - eapply bp_step; eauto.
   - eapply deadw_step; eauto.
-  - eapply qinv_step; eauto.
+  - eapply qinvg_step; eauto.
   - eapply cc_step; eauto.
+Qed.
+Lemma invg_run tr s : run init tr = Some s -> InvG s.
+Proof. apply (run_inv InvG invg_step tr init s invg_init). Qed.
+Lemma invg_run_r tr s : run init_r tr = Some s -> InvG s.
+Proof. apply (run_inv InvG invg_step tr init_r s invg_init_r). Qed.
+
+(* ---- the disciplined model: in addition no freed worker is busy ---- *)
+Record InvD (s : state) : Prop := mkInvD { i_g : InvG s; i_disc : Disc s; i_bp : BP s }.
+
+Lemma invd_init : InvD init.
+Proof. constructor; [apply invg_init | apply disc_init | apply bp_init]. Qed.
+Lemma invd_step s l s' : InvD s -> step_d s l = Some s' -> InvD s'.
+Proof.
+  intros [G D B] H. pose proof (step_d_step _ _ _ H) as H'.
+  constructor.
+  - eapply invg_step; eauto.
+  - eapply disc_step; eauto. apply G.
+  - eapply bp_step; eauto.
 Qed.
 Lemma invd_run tr s : run_d init tr = Some s -> InvD s.
 Proof. apply (run_d_inv InvD invd_step tr init s invd_init). Qed.
+
+(* ---- the repaired pool, no discipline ---- *)
+Record InvR (s : state) : Prop := mkInvR { r_g : InvG s; r_bp : BPr s }.
+Lemma invr_run tr s : run init_r tr = Some s -> InvR s.
+Proof.
+  apply (run_inv InvR).
+  - intros s0 l s1 [G B] H. constructor; [eapply invg_step; eauto | eapply bpr_step; eauto].
+  - constructor; [apply invg_init_r | apply bpr_init].
+Qed.
 
 (* ---- who can move ---- *)
 Definition wready (s : state) (i : nat) (x : worker) : bool :=
   w_cont x ||
   match w_pc x with
   | WExited => false
-  | WLockWC => is_none (wc_owner s)
-  | WLockQC => is_none (qc_owner s)
+  | WLockWC | WExitLockWC => is_none (wc_owner s)
+  | WLockQC | WAsgLock _ _ _ => is_none (qc_owner s)
   | WWaiting => negb (mem (S i) (qc_wait s)) && is_none (qc_owner s)
   | _ => true
   end.
@@ -765,7 +790,7 @@ Definition cready (s : state) : bool :=
   match pc0 s with
   | CDone => false
   | CWaitLock _ => is_none (wc_owner s)
-  | CAsgLock _ | CKillLock _ _ => is_none (qc_owner s)
+  | CAsgLock _ _ | CKillLock _ _ => is_none (qc_owner s)
   | CWaitBlocked _ => negb (mem 0 (wc_wait s)) && is_none (wc_owner s)
   | CKillJoin (w :: _) _ => match get_w s w with Some x => is_exited x | None => false end
   | CKillJoin [] _ => false
@@ -808,6 +833,12 @@ Proof.
     + exists (LEv (S i) (EStart t)). fire.
     + exists (LYield (S i)). fire.
     + exists (LEv (S i) (EEnd t)). fire.
+    + exists (LLock (S i) QC). fire.
+    + destruct (qc_wait s) as [|a r] eqn:W.
+      * exists (LSignal (S i) QC None). fire. rewrite W. reflexivity.
+      * exists (LSignal (S i) QC (Some a)). fire. rewrite W. unfold mem. cbn. rewrite Nat.eqb_refl. reflexivity.
+    + exists (LUnlock (S i) QC). fire.
+    + exists (LEv (S i) EAssignRet). fire.
     + destruct (wc_wait s) as [|a r] eqn:W.
       * exists (LSignal (S i) WC None). fire. rewrite W. reflexivity.
       * exists (LSignal (S i) WC (Some a)). fire. rewrite W. unfold mem. cbn. rewrite Nat.eqb_refl. reflexivity.
@@ -816,6 +847,11 @@ Proof.
     + exists (LCWake (S i) QC false). fire.
     + exists (LUnlock (S i) QC). fire.
     + exists (LUnlock (S i) QC). fire.
+    + destruct (w_busy x) eqn:B; exists (LLock (S i) WC); fire.
+    + destruct (wc_wait s) as [|a r] eqn:W.
+      * exists (LSignal (S i) WC None). fire. rewrite W. reflexivity.
+      * exists (LSignal (S i) WC (Some a)). fire. rewrite W. unfold mem. cbn. rewrite Nat.eqb_refl. reflexivity.
+    + exists (LUnlock (S i) WC). fire.
     + exists (LExit (S i)). fire.
 Qed.
 
@@ -858,6 +894,7 @@ Proof.
       * exists (LSignal 0 QC None). cfire. rewrite W. reflexivity.
       * exists (LSignal 0 QC (Some a)). cfire. rewrite W. unfold mem. cbn. rewrite Nat.eqb_refl. reflexivity.
     + exists (LUnlock 0 QC). cfire.
+    + exists (LEv 0 EAssignRet). cfire.
     + destruct ws as [|w ws]; [exfalso; apply (MK eq_refl); reflexivity|].
       destruct (V w) as (j & x & -> & E); [apply in_app_iff; right; left; reflexivity|].
       exists (LLock 0 QC). cfire. cbn. rewrite E. reflexivity.
@@ -891,24 +928,30 @@ Proof.
   apply filter_In in I. destruct I as [I PA]. destruct (In_nth_error _ _ I) as [i Ei]. eauto.
 Qed.
 
-(* deadlock freedom of the disciplined model *)
-Theorem pool_no_stuck_inv s :
-  InvD s -> pc0 s <> CDone -> exists l s', is_spurious l = false /\ step_d s l = Some s'.
+(* nobody can move (spurious wake-ups apart).  Then nobody holds a mutex, every worker has exited or is
+   asleep in cond_wait (queue_changed) without a pending signal, and the client has finished (after free)
+   or is asleep in the cond_wait of mps_thread_pool_wait without a pending signal.  In particular the
+   client is NOT inside mps_thread_free (lock / join), whatever the pool was doing when it was called. *)
+Definition all_quiet (s : state) : Prop :=
+  cready s = false /\ forall i x, nth_error (workers s) i = Some x -> wready s i x = false.
+Definition workers_asleep (s : state) : Prop :=
+  forall i x, nth_error (workers s) i = Some x ->
+    w_cont x = false /\ (w_pc x = WExited \/ (w_pc x = WWaiting /\ mem (S i) (qc_wait s) = true)).
+
+Lemma quiet_analysis s :
+  InvG s -> all_quiet s ->
+  workers_asleep s /\ cont0 s = false /\
+  (pc0 s = CDone \/ exists a, pc0 s = CWaitBlocked a /\ mem 0 (wc_wait s) = true).
 Proof.
-  intros I ND.
-  destruct (cready s) eqn:CR.
-  { destruct I. eapply cready_step; eauto. }
-  destruct (indexed_dec (wready s) (workers s) 0) as [(i & x & E & R)|WR].
-  { destruct I. destruct (wready_step s i x i_owna0 E R) as (l & s' & SP & T & ST).
-    exists l, s'. split; auto. unfold step_d. destruct l; auto. cbn in T. subst. exact ST. }
-  exfalso. cbn [plus] in WR. destruct I as [[BC BF] [D K] NL (A & CW & CQ) [BW BQ] (W1 & W2 & W3) Q [MW MK] (NDp & V & AL & LEN & CL) BPI [D1 D2] QI C].
+  intros I [CR WR].
+  destruct I as [[BC BF] NL (A & CW & CQ) [BW BQ] (W1 & W2 & W3) Q [MW MK] (NDp & V & AL & LEN & CL) [D1 D2] QI C].
   unfold cready in CR. apply orb_false_iff in CR. destruct CR as [C0 CR].
   assert (WRx : forall i x, nth_error (workers s) i = Some x ->
             w_cont x = false /\
             match w_pc x with
             | WExited => true
-            | WLockWC => negb (is_none (wc_owner s))
-            | WLockQC => negb (is_none (qc_owner s))
+            | WLockWC | WExitLockWC => negb (is_none (wc_owner s))
+            | WLockQC | WAsgLock _ _ _ => negb (is_none (qc_owner s))
             | WWaiting => mem (S i) (qc_wait s) || negb (is_none (qc_owner s))
             | _ => false end = true).
   { intros i x E. specialize (WR i x E). unfold wready in WR. apply orb_false_iff in WR. destruct WR as [WC0 WRR].
@@ -928,35 +971,137 @@ Proof.
     - destruct (WRx _ _ Ej) as [_ R]. destruct (w_pc y); try discriminate Hj; try discriminate R.
       rewrite QN in R. discriminate R. }
   rewrite QN, WN in *. cbn [is_none negb orb] in *.
-  (* so every worker is asleep without a signal, or has exited *)
-  assert (ASL : forall i x, nth_error (workers s) i = Some x ->
-            w_pc x = WExited \/ (w_pc x = WWaiting /\ mem (S i) (qc_wait s) = true)).
-  { intros i x E. destruct (WRx _ _ E) as [_ R]. destruct (w_pc x); try discriminate R; auto.
+  assert (ASL : workers_asleep s).
+  { intros i x E. destruct (WRx _ _ E) as [WC0 R]. split; auto. destruct (w_pc x); try discriminate R; auto.
     right. split; auto. rewrite orb_false_r in R. exact R. }
+  split; [exact ASL|]. split; [exact C0|].
   unfold CC in C.
-  destruct (pc0 s) eqn:PC; try discriminate CR; try (apply ND; reflexivity).
-  - (* client inside cond_wait of mps_thread_pool_wait, not signalled *)
-    rewrite andb_true_r in CR. apply negb_false_iff in CR.
-    destruct (W2 CR) as [Z | [QE | (j & y & Ej & Pj)]].
-    + assert (NB : length (filter w_busy (workers s)) <> 0) by (unfold nbusy in BC; intros Z0; rewrite Z0 in BC; apply Z; exact BC).
-      destruct (filter_nonempty _ _ NB) as (j & y & Ej & Bj).
-      pose proof (BPI _ _ Ej Bj) as PB. destruct (ASL _ _ Ej) as [PX|[PX _]]; rewrite PX in PB; discriminate PB.
-    + destruct (QI QE) as [HC | (j & y & Ej & Lj)]; [rewrite PC in HC; discriminate HC|].
-      destruct (ASL _ _ Ej) as [PX|[PX MX]]; rewrite PX in Lj; [discriminate Lj|]. cbn in Lj. rewrite MX in Lj. discriminate Lj.
-    + destruct (ASL _ _ Ej) as [PX|[PX _]]; congruence.
-  - (* client in pthread_join *)
+  destruct (pc0 s) eqn:PC; try discriminate CR; auto.
+  - (* inside cond_wait of mps_thread_pool_wait *)
+    right. exists a. split; auto. rewrite andb_true_r in CR. apply negb_false_iff in CR. exact CR.
+  - (* pthread_join on a worker that does not exit: impossible *)
+    exfalso.
     destruct ws as [|w ws]; [apply (MK eq_refl); reflexivity|].
     destruct (V w) as (j & y & -> & Ej); [apply in_app_iff; right; left; reflexivity|].
     cbn in CR. rewrite Ej in CR. unfold is_exited in CR.
     assert (DA : w_alive y = false) by (apply (D1 _ _ Ej); reflexivity).
-    destruct (ASL _ _ Ej) as [PX|[PX MX]]; [rewrite PX in CR; discriminate CR|].
+    destruct (ASL _ _ Ej) as [_ [PX|[PX MX]]]; [rewrite PX in CR; discriminate CR|].
     pose proof (D2 _ _ Ej DA PX MX) as F. discriminate F.
+Qed.
+
+Lemma not_quiet_step s :
+  InvG s -> ~ all_quiet s -> exists l s', is_spurious l = false /\ step_d s l = Some s'.
+Proof.
+  intros I NQ.
+  destruct (cready s) eqn:CR.
+  { destruct I. eapply cready_step; eauto. }
+  destruct (indexed_dec (wready s) (workers s) 0) as [(i & x & E & R)|WR].
+  { destruct I. destruct (wready_step s i x g_owna0 E R) as (l & s' & SP & T & ST).
+    exists l, s'. split; auto. unfold step_d. destruct l; auto. cbn in T. subst. exact ST. }
+  exfalso. apply NQ. split; [exact CR | exact WR].
+Qed.
+
+Lemma all_quiet_dec s : all_quiet s \/ ~ all_quiet s.
+Proof.
+  unfold all_quiet. destruct (cready s); [right; intros [H _]; discriminate|].
+  destruct (indexed_dec (wready s) (workers s) 0) as [(i & x & E & R)|WR].
+  - right. intros [_ H]. cbn [Nat.add] in R. rewrite (H i x E) in R. discriminate.
+  - left. split; [reflexivity | exact WR].
+Qed.
+
+Lemma all_asleep_intro s : forall ws k,
+  (forall i x, nth_error ws i = Some x -> worker_asleep s (k + i) x = true) -> all_asleep_from s k ws = true.
+Proof.
+  induction ws as [|a l IH]; intros k H; simpl; auto.
+  apply andb_true_intro. split.
+  - specialize (H 0 a eq_refl). rewrite Nat.add_0_r in H. exact H.
+  - apply IH. intros i x E. specialize (H (S i) x E). rewrite <- plus_n_Sm in H. exact H.
+Qed.
+
+(* PROGRESS WITHOUT DISCIPLINE: a state of the pool (any trace, repaired or not) in which only spurious
+   wake-ups are enabled, other than the final state after free, is a dead state: the client is inside the
+   cond_wait of mps_thread_pool_wait. *)
+Theorem pool_stuck_only_in_wait_inv s :
+  InvG s -> pc0 s <> CDone ->
+  (forall l s', step s l = Some s' -> is_spurious l = true) ->
+  dead_state s = true /\ exists a, pc0 s = CWaitBlocked a.
+Proof.
+  intros I ND ST.
+  destruct (all_quiet_dec s) as [AQ|NQ].
+  - destruct (quiet_analysis s I AQ) as (ASL & C0 & [PC|(a & PC & M)]); [contradiction|].
+    split; [| exists a; exact PC].
+    unfold dead_state, client_blocked_in_wait. rewrite C0, PC, M. cbn.
+    apply all_asleep_intro. intros i x E. cbn. destruct (ASL i x E) as [WC0 [PX|[PX MX]]]; unfold worker_asleep; rewrite WC0, PX; cbn; auto.
+  - exfalso. destruct (not_quiet_step s I NQ) as (l & s' & SP & H). apply step_d_step in H.
+    rewrite (ST _ _ H) in SP. discriminate.
+Qed.
+
+Theorem pool_stuck_only_in_wait tr s :
+  run init tr = Some s -> pc0 s <> CDone ->
+  (forall l s', step s l = Some s' -> is_spurious l = true) ->
+  dead_state s = true /\ exists a, pc0 s = CWaitBlocked a.
+Proof. intros H. apply pool_stuck_only_in_wait_inv. eapply invg_run; eauto. Qed.
+
+(* hence free and set_concurrency_limit never block themselves: while the client is inside one of them
+   (or anywhere else than in the cond_wait of wait) some step other than a spurious wake-up is enabled,
+   whatever the pool is doing (tasks running, queue non-empty) *)
+Theorem pool_api_never_blocks tr s :
+  run init tr = Some s -> pc0 s <> CDone -> (forall a, pc0 s <> CWaitBlocked a) ->
+  exists l s', is_spurious l = false /\ step s l = Some s'.
+Proof.
+  intros H ND NW. pose proof (invg_run tr s H) as I.
+  destruct (all_quiet_dec s) as [AQ|NQ].
+  - exfalso. destruct (quiet_analysis s I AQ) as (_ & _ & [PC|(a & PC & _)]); [contradiction | apply (NW a PC)].
+  - destruct (not_quiet_step s I NQ) as (l & s' & SP & ST). exists l, s'. split; auto. apply step_d_step; exact ST.
+Qed.
+
+(* the client asleep in wait always has a reason, provided busy workers are where they should be *)
+Lemma wait_has_reason s :
+  InvG s -> BP s -> workers_asleep s -> forall a, pc0 s = CWaitBlocked a -> mem 0 (wc_wait s) = true -> False.
+Proof.
+  intros I BPI ASL a PC M.
+  destruct I as [[BC BF] NL (A & CW & CQ) [BW BQ] (W1 & W2 & W3) Q [MW MK] PLs [D1 D2] QI C].
+  destruct (W2 M) as [Z | [QE | (j & y & Ej & Pj)]].
+  - assert (NB : length (filter w_busy (workers s)) <> 0) by (unfold nbusy in BC; intros Z0; rewrite Z0 in BC; apply Z; exact BC).
+    destruct (filter_nonempty _ _ NB) as (j & y & Ej & Bj).
+    pose proof (BPI _ _ Ej Bj) as PB. destruct (ASL _ _ Ej) as [_ [PX|[PX _]]]; rewrite PX in PB; discriminate PB.
+  - assert (PN : plist s <> []).
+    { destruct PLs as (_ & _ & _ & LEN & CL). rewrite PC in LEN, CL. cbn in LEN, CL. specialize (LEN eq_refl).
+      intros E. rewrite E in LEN. cbn in LEN. lia. }
+    destruct (QI QE PN) as [HC | (j & y & Ej & Lj)]; [rewrite PC in HC; discriminate HC|].
+    unfold qlook in Lj. destruct (ASL _ _ Ej) as [_ [PX|[PX MX]]]; rewrite PX in Lj; cbn in Lj.
+    + destruct (MW _ _ Ej) as [M1 _]. rewrite PX in M1. rewrite (M1 eq_refl) in Lj. discriminate Lj.
+    + rewrite MX in Lj. cbn in Lj. rewrite andb_false_r in Lj. discriminate Lj.
+  - destruct (ASL _ _ Ej) as [_ [PX|[PX _]]]; rewrite PX in Pj; discriminate Pj.
+Qed.
+
+(* deadlock freedom of the disciplined model *)
+Theorem pool_no_stuck_inv s :
+  InvD s -> pc0 s <> CDone -> exists l s', is_spurious l = false /\ step_d s l = Some s'.
+Proof.
+  intros [I D B] ND.
+  destruct (all_quiet_dec s) as [AQ|NQ]; [| apply not_quiet_step; assumption].
+  exfalso. destruct (quiet_analysis s I AQ) as (ASL & C0 & [PC|(a & PC & M)]); [contradiction|].
+  eapply wait_has_reason; eauto.
 Qed.
 
 Theorem pool_no_stuck_state tr s :
   run_d init tr = Some s -> pc0 s <> CDone ->
   exists l s', is_spurious l = false /\ step_d s l = Some s'.
 Proof. intros H. apply pool_no_stuck_inv. eapply invd_run; eauto. Qed.
+
+(* deadlock freedom of the REPAIRED pool, no precondition at all: limit lowered / pool freed while tasks
+   run, nested assign, ... *)
+Theorem pool_repaired_no_stuck_state tr s :
+  run init_r tr = Some s -> pc0 s <> CDone ->
+  exists l s', is_spurious l = false /\ step s l = Some s'.
+Proof.
+  intros H ND. destruct (invr_run tr s H) as [I [_ B]].
+  destruct (all_quiet_dec s) as [AQ|NQ].
+  - exfalso. destruct (quiet_analysis s I AQ) as (ASL & C0 & [PC|(a & PC & M)]); [contradiction|].
+    eapply wait_has_reason; eauto.
+  - destruct (not_quiet_step s I NQ) as (l & s' & SP & ST). exists l, s'. split; auto. apply step_d_step; exact ST.
+Qed.
 
 (* the client is blocked: inside cond_wait of mps_thread_pool_wait without a pending signal, or in
    pthread_join on a worker that has not exited *)
@@ -990,13 +1135,3 @@ Proof.
   destruct (pool_no_stuck_state tr s H ND) as (l & s' & SP & ST).
   exists l, s'. split; auto. split; auto. eapply blocked_client_no_step; eauto. apply step_d_step; exact ST.
 Qed.
-
-(* termination of wait.  Assumptions, stated explicitly:
-     (progress)  as long as some step other than a spurious wake-up is enabled, the system eventually takes one
-                 (no fairness between threads is needed: EVERY such step, by whichever thread, lowers the rank);
-     (spurious)  only finitely many spurious wake-ups occur, k say (each costs at most spurious_cost).
-   Then, by pool_no_stuck_state (such a step exists until wait has returned) and this bound (at most
-   rank s + spurious_cost * k of them fit while the client is still inside wait), wait returns. *)
-Theorem pool_wait_terminates tr s s' :
-  run s tr = Some s' -> stays_waiting s tr -> n_other tr <= rank s + spurious_cost * n_spurious tr.
-Proof. intros H W. pose proof (pool_wait_rank_bound tr s s' H W). lia. Qed.
